@@ -241,7 +241,7 @@ def tier_arg(argv):
     return tier, replay
 
 
-def tlc_trace(w, name, module, cfg_text, rows, chunk=1500, timeout=3000, obsfile="obs.ndjson", extra_files=()):
+def tlc_trace(w, name, module, cfg_text, rows, chunk=1500, timeout=3000, obsfile="obs.ndjson", extra_files=(), carry=None):
     """Trace validation (direction B / verdict): split the recorded events into chunks, validate
     each chunk with its own TLC process (-workers 1, linear behaviour), merge verdict.ndjson.
     Verdict fields: n (events consumed), lists of records carrying an event index 'i', lists of
@@ -251,10 +251,24 @@ def tlc_trace(w, name, module, cfg_text, rows, chunk=1500, timeout=3000, obsfile
         return {"n": 0}, 0, 0
     nchunks = max(1, min(4 * NCPU, (len(rows) + chunk - 1) // chunk))
     size = (len(rows) + nchunks - 1) // nchunks
-    parts = [(k * size, rows[k * size:(k + 1) * size]) for k in range(nchunks) if rows[k * size:(k + 1) * size]]
+    # carry(row) -> key for state-setting events: each chunk is prefixed with the latest such event
+    # per key seen before it, so that every chunk is a self-contained trace
+    parts = []
+    latest = {}
+    for k in range(nchunks):
+        part = rows[k * size:(k + 1) * size]
+        if not part:
+            continue
+        prefix = list(latest.values())
+        parts.append((k * size - len(prefix), len(prefix), prefix + part))
+        if carry:
+            for r_ in part:
+                key = carry(r_)
+                if key is not None:
+                    latest[key] = r_
 
     def one(arg):
-        k, (off, part) = arg
+        k, (off, plen, part) = arg
         d = w.sub("%s-t%d" % (name, k))
         write_ndjson(os.path.join(d, obsfile), part)
         r = tlc(d, module, cfg_text, workers=1, timeout=timeout, files=extra_files)
@@ -265,16 +279,16 @@ def tlc_trace(w, name, module, cfg_text, rows, chunk=1500, timeout=3000, obsfile
         if v.get("n") != len(part):
             raise Inconclusive("%s consumed %s of %d events" % (module, v.get("n"), len(part)))
         shutil.rmtree(d, ignore_errors=True)
-        return off, v, r
+        return off, plen, v, r
 
     merged, states, trans = {"n": 0}, 0, 0
     with ThreadPoolExecutor(max_workers=NCPU) as ex:
-        for off, v, r in ex.map(one, enumerate(parts)):
+        for off, plen, v, r in ex.map(one, enumerate(parts)):
             states += r.distinct
             trans += r.generated
             for key, val in v.items():
                 if key == "n":
-                    merged["n"] += val
+                    merged["n"] += val - plen
                 elif isinstance(val, list):
                     out = merged.setdefault(key, [])
                     for x in val:
